@@ -38,7 +38,8 @@ pub fn gen_session(seed: u64, run: u64, thorough: bool) -> Session {
         ("src/b.gleam".to_string(), b.clone()),
     ];
     let root_uri = format!("file://{root}");
-    let mut ops = preamble(Some(&root_uri));
+    let rich = rng.chance(1, 2);
+    let mut ops = crate::lsp::preamble_caps(Some(&root_uri), rich);
     let ua = uri_for(&root, "src/a.gleam");
     let ub = uri_for(&root, "src/b.gleam");
     let mut models: BTreeMap<String, DocModel> = BTreeMap::new();
@@ -57,7 +58,44 @@ pub fn gen_session(seed: u64, run: u64, thorough: bool) -> Session {
     let mut next_id = 1i64;
     let mut pending: Vec<i64> = Vec::new();
     let mut est_tasks = open.len() as u64;
-    let nbursts = rng.range(1, if thorough { 6 } else { 4 });
+    // One session in twenty-five is a long burst: dozens of edits and a batch of requests that the
+    // editor writes in one go (a replayed macro, a formatter applying its edits one by one), so
+    // that whatever the server queues between the main loop and its tasks fills up.
+    let long_burst = rng.chance(1, 25);
+    let concurrency: usize = *rng.pick(&[1, 2, 4, 16, 256, 256, 256, 256, 256, 256, 256, 256]);
+    if long_burst {
+        let uri = rng.pick(&open).clone();
+        let n = rng.range(34, if thorough { 90 } else { 70 });
+        for k in 0..n {
+            let m = models.get_mut(&uri).unwrap();
+            let e = if k == 0 {
+                // start from a small text so that every computation is short
+                Edit { range: None, text: "pub fn main() {\n  1\n}\n".into() }
+            } else {
+                let r = m.random_range(&mut rng);
+                Edit { range: Some(r), text: gen_text(&mut rng, 3) }
+            };
+            m.apply(&e).unwrap();
+            let mut p = PlannedOp::new(Op::Change { uri: uri.clone(), edits: vec![e] });
+            if k > 0 {
+                p.tags.push("glued".into());
+            }
+            ops.push(p);
+            est_tasks += open.len() as u64;
+        }
+        let nreq = rng.range(0, 12).min(concurrency.saturating_sub(1));
+        for _ in 0..nreq {
+            let pos = models[&uri].random_pos(&mut rng);
+            let method = *rng.pick(REQ_METHODS);
+            let mut p = PlannedOp::new(request(next_id, method, &uri, pos, &mut rng));
+            p.tags.push("glued".into());
+            ops.push(p);
+            next_id += 1;
+            est_tasks += 1;
+        }
+        ops.push(PlannedOp::new(Op::Barrier));
+    }
+    let nbursts = if long_burst { rng.range(0, 1) } else { rng.range(1, if thorough { 6 } else { 4 }) };
     for _ in 0..nbursts {
         let nops = rng.range(2, 9);
         for _ in 0..nops {
@@ -137,6 +175,16 @@ pub fn gen_session(seed: u64, run: u64, thorough: bool) -> Session {
             pending.clear();
         }
     }
+    // now and then the editor writes a message in the same go as the one before
+    if !long_burst {
+        let first_body = 5.min(ops.len());
+        for k in first_body..ops.len() {
+            let glueable = |o: &Op| matches!(o, Op::Open { .. } | Op::Change { .. } | Op::Close { .. } | Op::Save { .. } | Op::Request { .. } | Op::Cancel { .. } | Op::Watched { .. });
+            if glueable(&ops[k].op) && glueable(&ops[k - 1].op) && ops[k - 1].cuts.is_empty() && rng.chance(1, 6) {
+                ops[k].tags.push("glued".into());
+            }
+        }
+    }
     // ---- the client goes quiet
     ops.push(PlannedOp::new(Op::Barrier));
     for u in &open {
@@ -173,7 +221,7 @@ pub fn gen_session(seed: u64, run: u64, thorough: bool) -> Session {
         seed,
         run,
         hash_seed,
-        concurrency: *rng.pick(&[1, 2, 4, 16, 256, 256, 256, 256, 256, 256, 256, 256]),
+        concurrency,
         gran: draw_gran(&mut rng),
         policy: "seeded".into(),
         sequential: false,
@@ -405,8 +453,7 @@ pub fn check(s: &Session, h: &History, stats: &mut Stats) -> Option<Violation> {
         for i in &errored {
             let Op::Request { id, method, .. } = &s.ops[*i].op else { continue };
             let version = &at_version.iter().find(|(k, _)| k == i).unwrap().1;
-            let root_uri = format!("file://{}", s.root);
-            let mut ops = preamble(Some(&root_uri));
+            let mut ops = crate::lsp::preamble_of(s);
             for (u, t) in version {
                 if u == "#disk_ops" {
                     for k in disk_ops.iter().take(t.parse::<usize>().unwrap_or(0)) {
@@ -444,8 +491,7 @@ pub fn check(s: &Session, h: &History, stats: &mut Stats) -> Option<Violation> {
     }
     for (version, reqs) in &groups {
         let build = |hash_seed: u64| -> (History, Vec<i64>) {
-            let root_uri = format!("file://{}", s.root);
-            let mut ops = preamble(Some(&root_uri));
+            let mut ops = crate::lsp::preamble_of(s);
             for (u, t) in version {
                 if u == "#disk_ops" {
                     for k in disk_ops.iter().take(t.parse::<usize>().unwrap_or(0)) {
@@ -508,8 +554,7 @@ pub fn check(s: &Session, h: &History, stats: &mut Stats) -> Option<Violation> {
                 if performed_at.is_none() || recv_step.map_or(false, |r| performed_at.unwrap() > r) {
                     break;
                 }
-                let root_uri = format!("file://{}", s.root);
-                let mut ops = preamble(Some(&root_uri));
+                let mut ops = crate::lsp::preamble_of(s);
                 // disk first: the loader may have seen it already at the first open
                 for k2 in disk_ops.iter().take(more) {
                     if matches!(s.ops[*k2].op, Op::Disk(_)) {
@@ -540,8 +585,7 @@ pub fn check(s: &Session, h: &History, stats: &mut Stats) -> Option<Violation> {
             // does the answer belong to another version of the documents?
             let mut other_version = false;
             for (v2, _) in groups.iter().filter(|(v2, _)| *v2 != version) {
-                let root_uri = format!("file://{}", s.root);
-                let mut ops = preamble(Some(&root_uri));
+                let mut ops = crate::lsp::preamble_of(s);
                 for (u, t) in v2 {
                     if u == "#disk_ops" {
                         for k in disk_ops.iter().take(t.parse::<usize>().unwrap_or(0)) {
@@ -580,8 +624,7 @@ pub fn check(s: &Session, h: &History, stats: &mut Stats) -> Option<Violation> {
     // text of every document publishes the same list (this does not go through the history, so a
     // defect that the sequential reference of (c2) shares is still seen)
     {
-        let root_uri = format!("file://{}", s.root);
-        let mut ops = preamble(Some(&root_uri));
+        let mut ops = crate::lsp::preamble_of(s);
         for k in &disk_ops {
             if matches!(s.ops[*k].op, Op::Disk(_)) {
                 ops.push(PlannedOp::new(s.ops[*k].op.clone()));
